@@ -555,6 +555,16 @@ func (s *bsys) lenRules(i int, x *Term, isCap bool) {
 func (s *bsys) callLen(i int, call *Term) { s.callLenIdx(i, call, 0) }
 
 func (s *bsys) callLenIdx(i int, call *Term, res int) {
+	switch call.Callee() {
+	case "github.com/ethereum/go-ethereum/crypto.CompressPubkey":
+		// godoc: "CompressPubkey encodes a public key to the 33-byte compressed format."
+		s.eq(i, 0, 33)
+		return
+	case "github.com/ethereum/go-ethereum/crypto.FromECDSA":
+		// godoc: exports a private key into a binary dump; math.PaddedBigBytes(D, 32)
+		s.eq(i, 0, 32)
+		return
+	}
 	c, ok := call.Val.(*ssa.Call)
 	if !ok {
 		return
@@ -1277,6 +1287,10 @@ func (s *bsys) nilErrPost(t *Term) {
 			n := s.node(&Term{K: KExt, S: "0", A: []*Term{call}, Typ: types.Typ[types.Int]})
 			s.eq(n, s.node(lenTerm(call.A[1])), 0)
 		}
+	case "github.com/ethereum/go-ethereum/crypto.Sign":
+		// godoc: "The produced signature is in the [R || S || V] format" (65 bytes)
+		sig := &Term{K: KExt, S: "0", A: []*Term{call}}
+		s.eq(s.node(lenTerm(sig)), 0, 65)
 	case "(*encoding/csv.Reader).Read":
 		// godoc: a record is a slice of fields; a successful Read returns at least one field.
 		rec := &Term{K: KExt, S: "0", A: []*Term{call}}
